@@ -293,8 +293,23 @@ def ctmeta_event(darsia, rng, tid):
         with contextlib.redirect_stdout(io.StringIO()):
             ct = darsia.CoordinateTransformation(src.coordinatesystem, dst.coordinatesystem, pts, pts, fit_options={"tol": 1e-6})
             out = ct(src)
+            # the same transformation object serves a second image that is named, timed and dated differently: what does not
+            # concern the frame (name, time, date, reference date, kind of image) is the image's own, every time
+            import datetime
+            d0 = datetime.datetime(2024, 5, 1, 10, 0, 0)
+            src2 = darsia.Image(2.0 * np.arange(float(n1 * n2)).reshape(n1, n2), space_dim=2, dimensions=[1.0 * n1, 1.0 * n2], scalar=True,
+                                name="second", date=d0 + datetime.timedelta(hours=2), reference_date=d0)
+            src1 = darsia.Image(np.arange(float(n1 * n2)).reshape(n1, n2), space_dim=2, dimensions=[1.0 * n1, 1.0 * n2], scalar=True,
+                                name="first", date=d0 + datetime.timedelta(seconds=10), reference_date=d0 - datetime.timedelta(days=1))
+            outs = [ct(src1), ct(src2), ct(src1)]
     q = lambda v: [int(round(1e6 * float(x))) for x in v]
     e.update(origin=q(out.origin), dorigin=q(dst.origin), dims=q(out.dimensions), ddims=q(dst.dimensions), shape=list(out.img.shape[:2]), dshape=[m1, m2])
+    keep = 1
+    for o_, s_ in zip(outs, [src1, src2, src1]):
+        keep &= int(o_.name == s_.name and o_.date == s_.date and o_.reference_date == s_.reference_date and o_.time == s_.time
+                    and bool(o_.scalar) == bool(s_.scalar) and bool(o_.series) == bool(s_.series) and type(o_) is type(s_)
+                    and q(o_.origin) == q(dst.origin) and q(o_.dimensions) == q(dst.dimensions))
+    e["own_metadata_kept"] = keep
     return e
 
 
